@@ -605,6 +605,13 @@ impl DcpsDomainParticipant {
         message_receiver: &MessageReceiver<'_>,
         heartbeat_submessage: &HeartbeatSubmessage,
     ) {
+        // RTPS 8.3.7.5.3: a HEARTBEAT is invalid if firstSN is zero or negative, lastSN is negative
+        // or lastSN < firstSN - 1
+        if heartbeat_submessage.first_sn() <= 0
+            || heartbeat_submessage.last_sn() < heartbeat_submessage.first_sn() - 1
+        {
+            return;
+        }
         for s in self
             .domain_participant
             .user_defined_subscriber_list
